@@ -486,7 +486,19 @@ func c16Setup(cs *c16Case, withBad bool) (*c16Dir, error) {
 		}
 	}
 	if cs.Via == "P" && (cs.ListFault != "missing" || !withBad) {
-		if err := os.WriteFile(filepath.Join(pp, "list.txt"), []byte(list.String()), 0o644); err != nil {
+		var err error
+		switch {
+		case cs.ListFault == "directory" && withBad:
+			err = os.Mkdir(filepath.Join(pp, "list.txt"), 0o755)
+		case cs.ListFault == "long-line" && withBad:
+			// a line longer than a bufio.Scanner takes, after the first entry
+			text := list.String()
+			i := strings.IndexByte(text, '\n') + 1
+			err = os.WriteFile(filepath.Join(pp, "list.txt"), []byte(text[:i]+strings.Repeat("x", 70000)+"\n"+text[i:]), 0o644)
+		default:
+			err = os.WriteFile(filepath.Join(pp, "list.txt"), []byte(list.String()), 0o644)
+		}
+		if err != nil {
 			cleanup()
 			return nil, err
 		}
@@ -1201,8 +1213,11 @@ func c16EvalKinds(cs *c16Case, sink c16SinkFn) (status string) {
 		}
 		e.Lenient = true
 		nFail++
-		cause := map[string]string{"missing": "ENOENT", "unreadable": "EACCES"}[cs.ListFault]
-		e.Reports = append(e.Reports, c16Report{What: "list-" + cs.ListFault, Paths: []string{d.patchPath("list.txt")}, Causes: []string{c16Errnos[cause]}, Pos: -1})
+		cause := c16Errnos[map[string]string{"missing": "ENOENT", "unreadable": "EACCES", "directory": "EISDIR"}[cs.ListFault]]
+		if cs.ListFault == "long-line" {
+			cause = "too long"
+		}
+		e.Reports = append(e.Reports, c16Report{What: "list-" + cs.ListFault, Paths: []string{d.patchPath("list.txt")}, Causes: []string{cause}, Pos: -1})
 		if cs.ListFault == "unreadable" {
 			if injectPath != "" {
 				return "unjudged:two-injections"
@@ -1628,7 +1643,7 @@ func c16GenKinds(rt *rapid.T) *c16Case {
 	case "patch":
 		opts := []string{"missing", "unreadable", "directory"}
 		if cs.Via == "P" {
-			opts = append(opts, "list-missing", "list-unreadable")
+			opts = append(opts, "list-missing", "list-unreadable", "list-directory", "list-long-line")
 		}
 		f := rapid.SampledFrom(opts).Draw(rt, "patchFault")
 		if strings.HasPrefix(f, "list-") {
@@ -1769,7 +1784,7 @@ func c16Table() []*c16Case {
 			}
 		}
 	}
-	for _, lf := range []string{"missing", "unreadable"} {
+	for _, lf := range []string{"missing", "unreadable", "directory", "long-line"} {
 		out = append(out, &c16Case{Mode: "kinds", Via: "P", ListFault: lf, Patches: threePatches(), Files: allGood(), Args: []string{"tree"}})
 	}
 	return out
